@@ -165,11 +165,12 @@ type object struct {
 	val      any // *ir.Module (kept as any so this file stays compiler-agnostic)
 	base     uint64
 	flat     []fp.Entry
-	live     bool   // published and monitored
-	busyBy   int    // >=0: task running a legitimate in-place mutator on it
-	dirty    bool   // currently differs from baseline (already reported)
-	dirtyIdx int    // index of the violation that reported it
-	lastHash uint64 // fingerprint at the last check while dirty
+	live     bool       // published and monitored
+	busyBy   int        // >=0: task running a legitimate in-place mutator on it
+	dirty    bool       // currently differs from baseline (already reported)
+	dirtyIdx int        // index of the violation that reported it
+	lastHash uint64     // fingerprint at the last check while dirty
+	lastFlat []fp.Entry // flattening at that check: a further alteration is described relative to it
 }
 
 type opState struct {
@@ -177,7 +178,9 @@ type opState struct {
 	res           proto.OpResult
 	raw           []byte // the very slice/string bytes handed to the caller (O-ALIAS)
 	rawStr        string
-	infoMaps      []any // maps inside returned reflection data (scribble targets)
+	infoMaps      []any  // maps inside returned reflection data (scribble targets)
+	infoVal       any    // the reflection value handed to the caller
+	infoHash      uint64 // its deep fingerprint at return time
 	scribbled     bool
 	modObj        int // module object the op reads (-1 none)
 }
@@ -264,7 +267,13 @@ func (w *world) checkModules(t, op int, kind string, midOp bool) {
 		// first alteration, or altered again (possibly by somebody else)
 		// while still differing from its baseline
 		o.lastHash = h
-		paths, details := fp.Diff(o.flat, fp.Flatten(o.val), 12)
+		now := fp.Flatten(o.val)
+		prev := o.flat
+		if o.dirty && o.lastFlat != nil {
+			prev = o.lastFlat
+		}
+		paths, details := fp.Diff(prev, now, 12)
+		o.lastFlat = now
 		o.dirty = true
 		ct, co, ck, sus := culprit(w.sinceMod, t, op, kind)
 		o.dirtyIdx = w.addViolation(proto.Violation{
@@ -610,6 +619,14 @@ func runScenario(sc *proto.Scenario, nSites int) (res *proto.Result) {
 						AtStep: simrt.Steps})
 				}
 			}
+			if st.done && !st.scribbled && st.res.OK && st.infoVal != nil {
+				if h := fp.Hash(st.infoVal); h != st.infoHash {
+					w.addViolation(proto.Violation{Class: "O-ALIAS", Task: ti, Op: oi, Kind: st.res.Kind,
+						Object: fmt.Sprintf("reflection data of task %d op %d", ti, oi),
+						Detail: "reflection data (TranslationInfo) returned earlier was altered by a later call: now " + truncateStr(infoString(st.infoVal), 300) + ", was " + truncateStr(st.res.Info, 300),
+						AtStep: simrt.Steps})
+				}
+			}
 			res.Ops = append(res.Ops, st.res)
 		}
 	}
@@ -636,6 +653,13 @@ func runScenario(sc *proto.Scenario, nSites int) (res *proto.Result) {
 	enc.Encode(res.Violations)
 	res.LogHash = hex.EncodeToString(lh.Sum(nil)[:12])
 	return res
+}
+
+func truncateStr(s string, n int) string {
+	if len(s) > n {
+		return s[:n] + "..."
+	}
+	return s
 }
 
 func trim(a []uint32) []uint32 {
